@@ -38,6 +38,7 @@ type (
 		Forall bool
 		Vars   [][2]string // name, type
 		Body   Expr
+		Pats   []Expr // optional multi-pattern: forall x T :: trig(t1, t2) body
 	}
 	ECond struct{ C, A, B Expr }
 )
@@ -159,6 +160,13 @@ func (p *eparser) expr() Expr {
 		}
 		if err := p.expectOp("::"); err != nil {
 			panic(err)
+		}
+		if t := p.peek(); t.k == "id" && t.s == "trig" {
+			if c, ok := p.unary().(ECall); ok && c.Fun == "trig" {
+				q.Pats = c.Args
+			} else {
+				panic("trig(...) expected")
+			}
 		}
 		q.Body = p.expr()
 		return q
